@@ -493,7 +493,33 @@ def _recipe_of_this_request(ctx):
                     break
 
 
-DIRECTED = {"linking-rules": _directed, "recipe-of-this-request": _recipe_of_this_request}
+def _parameters_named_unlike_their_fields(ctx):
+    """The generated constructor call passes keyword arguments under the PARAMETER name: attrs private attributes (`_token` -> `token`)
+    and aliases, keyword-only or after an unlinked optional field (seeded change: the field id was used as the keyword)."""
+    from dataclasses import make_dataclass  # noqa: PLC0415
+
+    from adaptix import P  # noqa: PLC0415
+    from adaptix.conversion import allow_unlinked_optional, get_converter  # noqa: PLC0415
+    try:
+        import attrs  # noqa: PLC0415
+    except ImportError:
+        ctx.count("attrs_missing")
+        return
+    KwOnly = attrs.make_class("KwOnly", {"ident": attrs.field(type=int), "_token": attrs.field(type=str, kw_only=True), "kind": attrs.field(type=str, alias="kind_name", kw_only=True)})
+    AfterSkipped = attrs.make_class("AfterSkipped", {"ident": attrs.field(type=int), "note": attrs.field(type=str, default="n"), "_token": attrs.field(type=str, default="t"),
+                                                     "kind": attrs.field(type=str, alias="kind_name", default="k")})
+    Src = make_dataclass("SrcPN", [("ident", int), ("_token", str), ("kind", str)])
+    for label, dst, recipe, want in (("keyword-only", KwOnly, [], lambda: KwOnly(1, token="tok", kind_name="kd")),
+                                     ("after-unlinked-optional", AfterSkipped, [allow_unlinked_optional(P.ANY)], lambda: AfterSkipped(1, token="tok", kind_name="kd"))):
+        made = attempt(get_converter, Src, dst, recipe=recipe)
+        out = attempt(made.value, Src(1, "tok", "kd")) if made.kind == "ok" else made
+        ctx.evaluated(("directed-param-names", label), nontrivial=True)
+        ctx.count("conversions")
+        if out.kind != "ok" or out.value != want():
+            ctx.violation(f"directed:parameter-named-unlike-its-field:{label}", f"{label}: {out!r:.200}, the constructor call the linking rules fix gives {want()!r}", {"case": label})
+
+
+DIRECTED = {"linking-rules": _directed, "recipe-of-this-request": _recipe_of_this_request, "parameters-named-unlike-their-fields": _parameters_named_unlike_their_fields}
 from ..suite_leg import make as _suite_leg  # noqa: E402
 
 DIRECTED["suite-under-monitors"] = _suite_leg("C13")
